@@ -536,7 +536,9 @@ func (w *world) valid(op Op) bool {
 			}
 			seen[g] = true
 		}
-		return len(op.Gpus) == 1 || w.withinCap(op.Gpus, w.bufs[op.B-1].pages)
+		// no GPU receives more than pages/G + pages%G pages (DistMax in MemAlloc.tla)
+		pages, g := w.bufs[op.B-1].pages, len(op.Gpus)
+		return g == 1 || w.withinCap(op.Gpus, pages/g+pages%g)
 	case "Mig":
 		if op.B < 1 || op.B > len(w.bufs) || !w.bufs[op.B-1].live || w.bufs[op.B-1].internal {
 			return false
